@@ -561,12 +561,13 @@ func (e *Engine) invoke(fr *Frame, st *State, c *ssa.CallCommon, recv SV, args [
 	}
 	iv := recv.(*IfaceSV)
 	e.vc.oblige(e.oname(fr, "safety:nil#"), st.pc, not(fmt.Sprintf("(= %s 0)", iv.Tag)), "method call on nil interface: "+e.posStr(pos)+" "+key)
-	// closed-world dispatch over the in-repo implementers listed for this interface
-	if impls, ok := e.closedWorld[key]; ok {
-		return e.dispatchClosed(fr, st, iv, impls, m, args, resT, pos, key)
-	}
 	if ct, ok := e.db.Funcs[key]; ok {
 		return e.applyIfaceContract(fr, st, ct, m, recv, args, resT, pos)
+	}
+	// closed-world dispatch: an unexported interface of the repository can only be
+	// implemented inside its own package
+	if impls := e.closedImplementers(it, m); len(impls) > 0 {
+		return e.dispatchClosed(fr, st, iv, impls, m, args, resT, pos, key)
 	}
 	panic(engErr(fmt.Sprintf("interface method %s has no contract (at %s)", key, e.posStr(pos))))
 }
@@ -846,4 +847,47 @@ func (e *Engine) builtinAppend(fr *Frame, st *State, c *ssa.CallCommon, args []S
 		Len:  newLen,
 		Cap:  e.vc.define("acap", e.ar.idxSort(), ite(inplace, s.Cap, newCap)),
 	}
+}
+
+func (e *Engine) closedImplementers(it types.Type, m *types.Func) []*ssa.Function {
+	n, ok := types.Unalias(it).(*types.Named)
+	if !ok || n.Obj().Pkg() == nil || n.Obj().Exported() || !strings.HasPrefix(n.Obj().Pkg().Path(), modPath) {
+		return nil
+	}
+	key := n.Obj().Pkg().Path() + "." + n.Obj().Name() + "." + m.Name()
+	if v, ok := e.closedWorld[key]; ok {
+		return v
+	}
+	iface := n.Underlying().(*types.Interface)
+	p := e.spkgs[n.Obj().Pkg().Path()]
+	var out []*ssa.Function
+	if p != nil {
+		names := p.Pkg.Scope().Names()
+		for _, nm := range names {
+			tn, ok := p.Pkg.Scope().Lookup(nm).(*types.TypeName)
+			if !ok {
+				continue
+			}
+			if _, isIface := tn.Type().Underlying().(*types.Interface); isIface {
+				continue
+			}
+			for _, t := range []types.Type{tn.Type(), types.NewPointer(tn.Type())} {
+				if !types.Implements(t, iface) {
+					continue
+				}
+				ms := e.prog.MethodSets.MethodSet(t)
+				sel := ms.Lookup(m.Pkg(), m.Name())
+				if sel == nil {
+					continue
+				}
+				if fn := e.prog.MethodValue(sel); fn != nil {
+					// the receiver type of the dispatch is t itself
+					out = append(out, fn)
+				}
+				break
+			}
+		}
+	}
+	e.closedWorld[key] = out
+	return out
 }
